@@ -5,6 +5,7 @@ CONSTANTS
   DevMultiDrop = TRUE
   DevIncomingDrop = TRUE
   DevManagedEmpty = TRUE
+  DevPollMultiLen = TRUE
   Part = "listen"
   Feat = {}
   Sizes = {0, 1}
@@ -15,6 +16,6 @@ CONSTANTS
   Conns = {1, 2, 3}
   DgSocks = {"a", "b"}
   MaxDg = 2
-SPECIFICATION Spec
+SPECIFICATION SpecListen
 VIEW mcview
 INVARIANTS NoLostConnection
